@@ -1,6 +1,6 @@
 import OdxVerif.Proofs.AtomicRT
 import OdxVerif.Proofs.BytesRT
-import OdxVerif.Proofs.TextRT
+import OdxVerif.Proofs.TextRT16
 import OdxVerif.Model.Decode
 /-! First composite proof tier ("flat"): explicitly or implicitly positioned VALUE parameters over standard-length
     types — `A_INT32` in its four encodings, `A_UINT32` unencoded, `A_FLOAT64`, `A_BYTEFIELD` (whole bytes),
@@ -23,6 +23,7 @@ inductive Kind where
   | ascii      -- A_ASCIISTRING (ISO-8859-1, the default encoding) of BIT-LENGTH / 8 characters
   | float32    -- A_FLOAT32: the value is the binary64 pattern of a number that is exactly a normal binary32 number, ±0 or ±inf
   | utf8       -- A_UTF8STRING (UTF-8, the default encoding): code points whose encoding has BIT-LENGTH / 8 bytes
+  | unicode2   -- A_UNICODE2STRING (UCS-2 = UTF-16, the default encoding; high-low byte order = UTF-16BE), BIT-LENGTH / 8 bytes
 deriving Repr, DecidableEq, Inhabited
 
 /-- an explicitly or implicitly positioned VALUE parameter with a standard-length type and the identical compu
@@ -45,6 +46,7 @@ def Obj.bt (o : Obj) : BaseType :=
   | .ascii => .ascii
   | .float32 => .float32
   | .utf8 => .utf8
+  | .unicode2 => .unicode2
 
 def Obj.toParam (o : Obj) : Param :=
   .mk o.name o.bytePos o.bitPos (.value (.simple (.std o.bt o.enc o.hl o.bl none false) o.bt .identical) none)
@@ -58,6 +60,7 @@ def Obj.encOk (o : Obj) : Prop :=
   | .ascii => o.enc = none ∨ o.enc = some .iso1
   | .float32 => o.enc = none ∨ o.enc = some .none_
   | .utf8 => o.enc = none ∨ o.enc = some .utf8
+  | .unicode2 => o.enc = none ∨ o.enc = some .ucs2
 
 /-- the sizes the kind admits: integers up to 64 bits (the limit of the bitstruct module), floats exactly 64,
     byte fields whole bytes (the byte order flag is immaterial for them: `bytefield_hl_irrelevant`; the objects
@@ -71,6 +74,7 @@ def Obj.sizeOk (o : Obj) : Prop :=
   | .ascii => o.bl % 8 = 0 ∧ o.hl = true
   | .float32 => o.bl = 32
   | .utf8 => o.bl % 8 = 0 ∧ o.hl = true
+  | .unicode2 => o.bl % 8 = 0 ∧ o.hl = true
 
 def Obj.ok (o : Obj) : Prop := o.encOk ∧ 1 ≤ o.bl ∧ o.sizeOk
 def Obj.isInt (o : Obj) : Prop := o.kind = .int32 ∨ o.kind = .uint32
@@ -88,6 +92,7 @@ def Obj.raw (o : Obj) (v : IVal) : Nat :=
   | .ascii, .str cps => ofBytesBE cps
   | .float32, .flt b => (Text.f64to32? b).getD 0
   | .utf8, .str cps => ofBytesBE ((Text.encode .utf8 cps).getD [])
+  | .unicode2, .str cps => ofBytesBE ((Text.encode .utf16be cps).getD [])
   | _, _ => 0
 
 /-- the internal value of a `bl`-bit pattern -/
@@ -100,6 +105,7 @@ def Obj.ofRaw (o : Obj) (r : Nat) : IVal :=
   | .ascii => .str (toBytesBE ((o.bl + 7) / 8) (r * 2 ^ ((8 - o.bl % 8) % 8)))
   | .float32 => .flt ((Text.f32to64? r).getD 0)
   | .utf8 => .str ((Text.decode .utf8 (toBytesBE ((o.bl + 7) / 8) (r * 2 ^ ((8 - o.bl % 8) % 8)))).getD [])
+  | .unicode2 => .str ((Text.decode .utf16be (toBytesBE ((o.bl + 7) / 8) (r * 2 ^ ((8 - o.bl % 8) % 8)))).getD [])
 
 /-- the internal values the object can represent (float32: binary64 patterns of numbers that are exactly binary32
     normal numbers, zeros or infinities — the part of `float → binary32` the model follows; UTF-8: code point lists
@@ -113,6 +119,7 @@ def Obj.inRange (o : Obj) (v : IVal) : Prop :=
   | .ascii, .str cps => 8 * cps.length = o.bl ∧ AllBytes cps
   | .float32, .flt b => b < 2 ^ 64 ∧ (Text.f64to32? b).isSome = true
   | .utf8, .str cps => ∃ bs, Text.encode .utf8 cps = some bs ∧ 8 * bs.length = o.bl
+  | .unicode2, .str cps => ∃ bs, Text.encode .utf16be cps = some bs ∧ 8 * bs.length = o.bl
   | _, _ => False
 
 /-- Boolean version of `inRange` -/
@@ -127,6 +134,9 @@ def Obj.accepts (o : Obj) (v : IVal) : Bool :=
   | .utf8, .str cps => match Text.encode .utf8 cps with
     | some bs => decide (8 * bs.length = o.bl)
     | none => false
+  | .unicode2, .str cps => match Text.encode .utf16be cps with
+    | some bs => decide (8 * bs.length = o.bl)
+    | none => false
   | _, _ => false
 
 /-- the bit patterns the (strict) decoder turns into a value: all of them for the integer, binary64, byte-field and
@@ -136,6 +146,7 @@ def Obj.decodes (o : Obj) (r : Nat) : Prop :=
   match o.kind with
   | .float32 => (Text.f32to64? r).isSome = true
   | .utf8 => (Text.decode .utf8 (toBytesBE ((o.bl + 7) / 8) (r * 2 ^ ((8 - o.bl % 8) % 8)))).isSome = true
+  | .unicode2 => (Text.decode .utf16be (toBytesBE ((o.bl + 7) / 8) (r * 2 ^ ((8 - o.bl % 8) % 8)))).isSome = true
   | _ => True
 
 /-- the bit patterns that are the representation of some value (all but "negative zero"; for the kinds with a partial
@@ -145,13 +156,16 @@ def Obj.canon (o : Obj) (r : Nat) : Prop :=
   | .int32 => canonRaw o.enc o.bl r
   | .float32 => r < 2 ^ o.bl ∧ (Text.f32to64? r).isSome = true
   | .utf8 => r < 2 ^ o.bl ∧ (Text.decode .utf8 (toBytesBE ((o.bl + 7) / 8) (r * 2 ^ ((8 - o.bl % 8) % 8)))).isSome = true
+  | .unicode2 => r < 2 ^ o.bl ∧ (Text.decode .utf16be (toBytesBE ((o.bl + 7) / 8) (r * 2 ^ ((8 - o.bl % 8) % 8)))).isSome = true
   | _ => r < 2 ^ o.bl
 
 theorem Obj.accepts_iff (o : Obj) (ho : o.ok) (v : IVal) : o.accepts v = true ↔ o.inRange v := by
   unfold Obj.accepts Obj.inRange
   cases o.kind <;> cases v <;> simp [rangeOk_iff o.enc o.bl ho.2.1, AllBytes]
-  rename_i cps
-  cases Text.encode .utf8 cps <;> simp
+  · rename_i cps
+    cases Text.encode .utf8 cps <;> simp
+  · rename_i cps
+    cases Text.encode .utf16be cps <;> simp
 
 theorem Obj.raw_spec (o : Obj) (ho : o.ok) (v : IVal) (hr : o.inRange v) :
     o.raw v < 2 ^ o.bl ∧ o.ofRaw (o.raw v) = v := by
@@ -196,6 +210,16 @@ theorem Obj.raw_spec (o : Obj) (ho : o.ok) (v : IVal) (hr : o.inRange v) :
   · rename_i cps
     obtain ⟨bs, henc, hlen⟩ := hr
     obtain ⟨hall, hdec⟩ := Text.utf8_decode_encode cps bs henc
+    have hlt := ofBytesBE_lt bs hall
+    rw [pow256, hlen] at hlt
+    rw [henc, Option.getD_some]
+    refine ⟨hlt, ?_⟩
+    have e1 : (o.bl + 7) / 8 = bs.length := by omega
+    have e2 : (8 - o.bl % 8) % 8 = 0 := by omega
+    rw [e1, e2, Nat.pow_zero, Nat.mul_one, toBytesBE_ofBytesBE bs hall, hdec, Option.getD_some]
+  · rename_i cps
+    obtain ⟨bs, henc, hlen⟩ := hr
+    obtain ⟨hall, hdec⟩ := Text.utf16be_decode_encode cps bs henc
     have hlt := ofBytesBE_lt bs hall
     rw [pow256, hlen] at hlt
     rw [henc, Option.getD_some]
@@ -253,6 +277,17 @@ theorem Obj.canon_spec (o : Obj) (ho : o.ok) (r : Nat) (hc : o.canon r) :
     rw [pow256]
     have : 8 * ((o.bl + 7) / 8) = o.bl := by omega
     rw [this]; exact hlt
+  · obtain ⟨hlt, hsome⟩ := hc
+    obtain ⟨cps, hcps⟩ := Option.isSome_iff_exists.mp hsome
+    have e2 : (8 - o.bl % 8) % 8 = 0 := by omega
+    rw [e2, Nat.pow_zero, Nat.mul_one] at hcps ⊢
+    have henc := Text.utf16be_encode_decode _ cps (toBytesBE_allBytes _ _) hcps
+    rw [hcps, Option.getD_some, henc, Option.getD_some]
+    refine ⟨⟨_, rfl, by rw [toBytesBE_length]; omega⟩, ?_⟩
+    apply ofBytesBE_toBytesBE_of_lt
+    rw [pow256]
+    have : 8 * ((o.bl + 7) / 8) = o.bl := by omega
+    rw [this]; exact hlt
 
 /-- the representation of a value decodes -/
 theorem Obj.raw_decodes (o : Obj) (ho : o.ok) (v : IVal) (hr : o.inRange v) : o.decodes (o.raw v) := by
@@ -272,12 +307,19 @@ theorem Obj.raw_decodes (o : Obj) (ho : o.ok) (v : IVal) (hr : o.inRange v) : o.
     have e1 : (o.bl + 7) / 8 = bs.length := by omega
     have e2 : (8 - o.bl % 8) % 8 = 0 := by omega
     rw [henc, Option.getD_some, e1, e2, Nat.pow_zero, Nat.mul_one, toBytesBE_ofBytesBE bs hall, hdec]; rfl
+  · rename_i cps
+    obtain ⟨bs, henc, hlen⟩ := hr
+    obtain ⟨hall, hdec⟩ := Text.utf16be_decode_encode cps bs henc
+    have e1 : (o.bl + 7) / 8 = bs.length := by omega
+    have e2 : (8 - o.bl % 8) % 8 = 0 := by omega
+    rw [henc, Option.getD_some, e1, e2, Nat.pow_zero, Nat.mul_one, toBytesBE_ofBytesBE bs hall, hdec]; rfl
 
 /-- a canonical pattern decodes -/
 theorem Obj.canon_decodes (o : Obj) (r : Nat) (hc : o.canon r) : o.decodes r := by
   unfold Obj.canon at hc
   unfold Obj.decodes
   cases hkind : o.kind <;> simp only [hkind] at hc ⊢
+  · exact hc.2
   · exact hc.2
   · exact hc.2
 
@@ -417,6 +459,19 @@ theorem encodeParam_obj (o : Obj) (ho : o.ok) (v : IVal) (hr : o.inRange v) (fue
         BaseType.isNumeric, odxassert, he, hfit1, hfit2, hsub, hb0, hm8, hge, hmask, hhl]
       cases hb : o.bytePos <;>
         simp [encStep, Obj.raw, hkind, Obj.pos, Obj.k, Obj.bp, Obj.mask, ord, toBytesBE_length, hhl, hb, henc]
+  · rename_i cps
+    obtain ⟨bs, henc, hlen⟩ := hr
+    obtain ⟨hm8, hhl⟩ := hsz
+    rw [henc, Option.getD_some] at hge
+    have hfit1 : ¬ (o.bl < 8 * bs.length) := by omega
+    have hfit2 : ¬ (8 * bs.length < o.bl) := by omega
+    have hsub : 8 * bs.length - o.bl = 0 := by omega
+    rcases hk with he | he <;>
+    · simp [Obj.toParam, Obj.bt, hkind, encodeParam, encodeDop, encodeDct, typeAdmits, emplaceAtomic, emplaceBytes, fitBytes,
+        stringCodec, henc, bind, pure, run_ite, run_bind, run_pure, run_getS, run_setS, run_modifyS, run_raise,
+        BaseType.isNumeric, odxassert, he, hfit1, hfit2, hsub, hb0, hm8, hge, hmask, hhl]
+      cases hb : o.bytePos <;>
+        simp [encStep, Obj.raw, hkind, Obj.pos, Obj.k, Obj.bp, Obj.mask, ord, toBytesBE_length, hhl, hb, henc]
 
 /-- the decoder's effect for one object -/
 def decStep (o : Obj) (d : DecState) : IVal × DecState :=
@@ -495,6 +550,18 @@ theorem decodeParam_obj (o : Obj) (ho : o.ok) (fuel : Nat) (d : DecState)
         simp [Obj.toParam, Obj.bt, Obj.ofRaw, hkind, decodeParam, decodeDop, decodeDct, extractAtomic, extractCore, convertRaw,
           bind, pure, run_bind, run_pure, run_getS, run_modifyS, run_ite, run_raise, BaseType.isNumeric, odxassert, hsz, hnl,
           he, hb, decStep, Obj.pos, Obj.k, Obj.bp, hb64]
+  · obtain ⟨hm8, hhl⟩ := hsz
+    have e2 : (8 - o.bl % 8) % 8 = 0 := by omega
+    rw [e2, Nat.pow_zero, Nat.mul_one, hhl] at hdec
+    cases hb : o.bytePos <;> simp only [hb] at hlen hdec
+    all_goals
+      have hnl : ¬ (d.msg.length < _ + (o.bl + o.bitPos.getD 0 + 7) / 8) := Nat.not_lt.mpr hlen
+      obtain ⟨cps, hcps⟩ := Option.isSome_iff_exists.mp hdec
+      rcases hk with he | he
+      all_goals
+        simp [Obj.toParam, Obj.bt, Obj.ofRaw, hkind, decodeParam, decodeDop, decodeDct, extractAtomic, extractCore, convertRaw,
+          stringCodec, bind, pure, run_bind, run_pure, run_getS, run_modifyS, run_ite, run_raise, BaseType.isNumeric, odxassert, hb0, hnl,
+          he, hb, hm8, hhl, decStep, Obj.pos, Obj.k, Obj.bp, hcps]
   · obtain ⟨hm8, hhl⟩ := hsz
     have e2 : (8 - o.bl % 8) % 8 = 0 := by omega
     rw [e2, Nat.pow_zero, Nat.mul_one, hhl] at hdec
@@ -614,6 +681,19 @@ theorem encodeParam_const_obj (o : Obj) (ho : o.ok) (v : IVal) (hr : o.inRange v
         hfit1, hfit2, hsub, hb0, hm8, hge, hmask, hhl]
       cases hb : o.bytePos <;>
         simp [encStep, Obj.raw, hkind, Obj.pos, Obj.k, Obj.bp, Obj.mask, ord, toBytesBE_length, hhl, hb, henc]
+  · rename_i cps
+    obtain ⟨bs, henc, hlen⟩ := hr
+    obtain ⟨hm8, hhl⟩ := hsz
+    rw [henc, Option.getD_some] at hge
+    have hfit1 : ¬ (o.bl < 8 * bs.length) := by omega
+    have hfit2 : ¬ (8 * bs.length < o.bl) := by omega
+    have hsub : 8 * bs.length - o.bl = 0 := by omega
+    rcases hk with he | he <;> rcases hpv with rfl | rfl <;>
+    · simp [Obj.toConstParam, Obj.bt, hkind, encodeParam, encodeDct, emplaceAtomic, emplaceBytes, fitBytes,
+        stringCodec, henc, bind, pure, run_ite, run_bind, run_pure, run_getS, run_setS, run_modifyS, run_raise, BaseType.isNumeric, odxassert, he,
+        hfit1, hfit2, hsub, hb0, hm8, hge, hmask, hhl]
+      cases hb : o.bytePos <;>
+        simp [encStep, Obj.raw, hkind, Obj.pos, Obj.k, Obj.bp, Obj.mask, ord, toBytesBE_length, hhl, hb, henc]
 
 /-- decoding a CODED-CONST parameter returns what is on the wire (a mismatch with the constant is only warned about) -/
 theorem decodeParam_const_obj (o : Obj) (ho : o.ok) (v : IVal) (fuel : Nat) (d : DecState)
@@ -682,6 +762,18 @@ theorem decodeParam_const_obj (o : Obj) (ho : o.ok) (v : IVal) (fuel : Nat) (d :
         simp [Obj.toConstParam, Obj.bt, Obj.ofRaw, hkind, decodeParam, decodeDct, extractAtomic, extractCore, convertRaw,
           bind, pure, run_bind, run_pure, run_getS, run_modifyS, run_ite, run_raise, BaseType.isNumeric, odxassert, hsz, hnl,
           he, hb, decStep, Obj.pos, Obj.k, Obj.bp, hb64]
+  · obtain ⟨hm8, hhl⟩ := hsz
+    have e2 : (8 - o.bl % 8) % 8 = 0 := by omega
+    rw [e2, Nat.pow_zero, Nat.mul_one, hhl] at hdec
+    cases hb : o.bytePos <;> simp only [hb] at hlen hdec
+    all_goals
+      have hnl : ¬ (d.msg.length < _ + (o.bl + o.bitPos.getD 0 + 7) / 8) := Nat.not_lt.mpr hlen
+      obtain ⟨cps, hcps⟩ := Option.isSome_iff_exists.mp hdec
+      rcases hk with he | he
+      all_goals
+        simp [Obj.toConstParam, Obj.bt, Obj.ofRaw, hkind, decodeParam, decodeDct, extractAtomic, extractCore, convertRaw,
+          stringCodec, bind, pure, run_bind, run_pure, run_getS, run_modifyS, run_ite, run_raise, BaseType.isNumeric, odxassert, hb0, hnl,
+          he, hb, hm8, hhl, decStep, Obj.pos, Obj.k, Obj.bp, hcps]
   · obtain ⟨hm8, hhl⟩ := hsz
     have e2 : (8 - o.bl % 8) % 8 = 0 := by omega
     rw [e2, Nat.pow_zero, Nat.mul_one, hhl] at hdec
